@@ -36,7 +36,12 @@ pub trait Fam {
     fn decode(b: &[u8]) -> Result<Option<Self::P>, ErrInfo>;
     fn decode_async(b: &[u8], sched: Vec<Sched>, term: Term) -> (Result<Self::P, ErrInfo>, usize);
     fn poll(b: &[u8], sched: Vec<Sched>, term: Term) -> PollOut<Self::P>;
-    fn encode_async(p: &Self::P, script: Vec<WItem>) -> (Result<(), ErrInfo>, Vec<u8>);
+    fn encode_async(p: &Self::P, script: Vec<WItem>) -> (Result<(), ErrInfo>, Vec<u8>) {
+        let (r, w, _) = Self::encode_async_counted(p, script);
+        (r, w)
+    }
+    /// also returns how many times the future returned Pending
+    fn encode_async_counted(p: &Self::P, script: Vec<WItem>) -> (Result<(), ErrInfo>, Vec<u8>, usize);
     /// `Encodable::encode` of the packet's body into a scripted `io::Write` sink:
     /// (control byte, result, bytes the sink received, body.encode_len()); None for body-less packets
     fn body_stream(p: &Self::P, script: Vec<WItem>) -> Option<(Result<(), io::ErrorKind>, Vec<u8>, usize)>;
@@ -142,13 +147,13 @@ impl Fam for V3 {
     fn poll(b: &[u8], sched: Vec<Sched>, term: Term) -> PollOut<Self::P> {
         poll_impl!(v3, b, sched, term, e3)
     }
-    fn encode_async(p: &Self::P, script: Vec<WItem>) -> (Result<(), ErrInfo>, Vec<u8>) {
+    fn encode_async_counted(p: &Self::P, script: Vec<WItem>) -> (Result<(), ErrInfo>, Vec<u8>, usize) {
         let mut w = ScriptWriter::new(script);
-        let res = {
+        let (res, pend) = {
             let mut fut = Box::pin(p.encode_async(&mut w));
-            drive(fut.as_mut()).0
+            drive(fut.as_mut())
         };
-        (res.map_err(|e| e3(&e)), w.written)
+        (res.map_err(|e| e3(&e)), w.written, pend)
     }
     fn body_stream(p: &Self::P, script: Vec<WItem>) -> Option<(Result<(), io::ErrorKind>, Vec<u8>, usize)> {
         use v3::Packet::*;
@@ -203,13 +208,13 @@ impl Fam for V5 {
     fn poll(b: &[u8], sched: Vec<Sched>, term: Term) -> PollOut<Self::P> {
         poll_impl!(v5, b, sched, term, e5)
     }
-    fn encode_async(p: &Self::P, script: Vec<WItem>) -> (Result<(), ErrInfo>, Vec<u8>) {
+    fn encode_async_counted(p: &Self::P, script: Vec<WItem>) -> (Result<(), ErrInfo>, Vec<u8>, usize) {
         let mut w = ScriptWriter::new(script);
-        let res = {
+        let (res, pend) = {
             let mut fut = Box::pin(p.encode_async(&mut w));
-            drive(fut.as_mut()).0
+            drive(fut.as_mut())
         };
-        (res.map_err(|e| e5(&e)), w.written)
+        (res.map_err(|e| e5(&e)), w.written, pend)
     }
     fn body_stream(p: &Self::P, script: Vec<WItem>) -> Option<(Result<(), io::ErrorKind>, Vec<u8>, usize)> {
         use v5::Packet::*;
